@@ -35,6 +35,15 @@ MUTS = {
  "M11-derived-var-stale-read": ("ds/reactive/variable.go",
     "d.Compute(func(currentValue Type) Type { return compute(currentValue, input1, input2.Get()) })",
     "other := input2.Get()\n\t\t\t\td.Compute(func(currentValue Type) Type { return compute(currentValue, input1, other) })"),
+ "N1-window-fix-reverted": ("ds/reactive/sorted_set_impl.go",
+    "\t\t\tif initialUpdate {\n\t\t\t\tinitialUpdate = false\n\t\t\t} else {",
+    "\t\t\tif initialUpdate || listElement.unsubscribeFromWeightUpdates == nil {\n\t\t\t\tinitialUpdate = false\n\t\t\t} else {"),
+ "N3-subtract-arith-outside-mutex": ("ds/reactive/set_impl.go",
+    "\t\ts.Compute(func(ds.ReadableSet[ElementType]) ds.SetMutations[ElementType] {\n\t\t\treturn setArithmetic.Add(mutations)\n\t\t})",
+    "\t\ts.Apply(setArithmetic.Add(mutations))"),
+ "N5-onupdate-unlocks-before-lockexecution": ("ds/reactive/variable_impl.go",
+    "\tcreatedCallback.LockExecution(r.uniqueUpdateID)\n\tdefer createdCallback.UnlockExecution()\n\n\tr.valueMutex.Unlock()",
+    "\tr.valueMutex.Unlock()\n\n\tcreatedCallback.LockExecution(r.uniqueUpdateID)\n\tdefer createdCallback.UnlockExecution()"),
  "M12-replace-reports-everything": ("ds/reactive/set_impl.go",
     "addedElements := newElements.Filter(func(element ElementType) bool { return !s.value.Has(element) })",
     "addedElements := newElements.Filter(func(element ElementType) bool { return true })"),
@@ -65,5 +74,6 @@ for name in which:
                 for b in d.get("broken", []):
                     fl = b.get("failures")
                     print("     -> broken:", b.get("theorem_or_correspondence"), str(fl)[:300])
+                    print("        failing Lean files:", sorted(set(re.findall(r"(Hive/[\\w/]+\\.lean):\\d+:\\d+: error", str(fl)))))
     sys.stdout.flush()
 subprocess.run(["git", "-C", WT, "checkout", "-q", "--", "."], check=True)
